@@ -413,12 +413,11 @@ def slot_alternatives(e, j, code, fs, opsize, mode):
         alts = [mem(s, msize, mode) for s in MEM_SHAPES[mode]]
         return alts[DEFAULT_MEM], alts
     regs = regs_of(code, size, mode)
-    if not regs:
+    mems = [mem(s, msize, mode) for s in MEM_SHAPES[mode]] if code in "uvw" else []
+    if not regs and not mems:
         return None, []
-    alts = list(regs)
-    if code in "uvw":
-        alts += [mem(s, msize, mode) for s in MEM_SHAPES[mode]]
-    return regs[DEFAULT_REG[j] % len(regs)], alts
+    # (a register/memory slot whose registers do not exist in this mode — r/m64 in protected mode — can still be written as memory)
+    return (regs[DEFAULT_REG[j] % len(regs)] if regs else mems[DEFAULT_MEM]), list(regs) + mems
 
 
 PAIRWISE = False          # thorough tier: additionally vary TWO slots at a time (REX/VEX R, X, B, vvvv and is4 come from different operands)
@@ -917,7 +916,10 @@ def compare(it):
     if any(exp[k][1] for k in missing):
         res["rules"].add("fixed-operand")
     hard = [exp[k][0] for k in missing if not exp[k][1]]
-    if lbase == "nop" and dbase == "xchg" and all(o[0] == "reg" and o[1:3] == ("g", 0) for o in hard):
+    # 90 / 66 90 / 48 90 exchange (e/r)ax with itself = nop — except `xchg eax, eax` in long mode: that instruction zeroes the upper half of
+    # rax, the one-byte 90 does not (SDM: 90 is NOP in 64-bit mode; the exchange needs 87 C0)
+    if lbase == "nop" and dbase == "xchg" and all(o[0] == "reg" and o[1:3] == ("g", 0) for o in hard) and \
+            not (it.mode == "x64" and any(o[0] == "reg" and o[3] == 32 for o in hard)):
         hard = []
         res["rules"].add("xchg-nop")
     extra = []
@@ -1093,11 +1095,8 @@ def suspect_of(it, kinds):
 def modes_of(e):
     if flag(e, "X86_ONLY"):
         return ["x86"]
-    if flag(e, "WITH_REXW"):
-        # REX.W does not exist in protected mode. VEX.W / XOP.W does where it is part of the opcode: the forms without a general purpose operand
-        if (flag(e, "VEX_OP") or flag(e, "XOP_OP")) and not any(c in "rv" or "A" <= c <= "P" for (c, _) in slots(e)):
-            return ["x64", "x86"]
-        return ["x64"]
+    # WITH_REXW entries too: REX.W does not exist in protected mode and VEX.W / XOP.W only where it is part of the opcode (forms without a
+    # general purpose operand) — the others must be REFUSED there; if one is accepted its bytes are read by the 32-bit disassembler like any other
     return ["x64", "x86"]
 
 
